@@ -1,5 +1,6 @@
 SPECIFICATION TraceSpec
 CONSTANTS
+  SampleT = 1
   N = 16
   OorD = {0, 1, 7, 8, 1000000}
   UpdIdx = {0}
